@@ -263,7 +263,9 @@ def verify_no_shared_state(run, tier):
     for modname, cname in (('pykdebugparser.traces_parser', 'TracesParser'), ('pykdebugparser.pykdebugparser', 'PyKdebugParser'),
                            ('pykdebugparser.kd_buf_parser', 'KdBufParser'), ('pykdebugparser.callstacks_parser', 'CallstacksParser')):
         cls = sess.module(modname).ns[cname]
-        bad = [k for k, v in cls.attrs.items() if isinstance(v, (PDict, PList)) or type(v).__name__ in ('SymMapM',)]
+        from checks.common import class_container_escapes
+        # a class-level container is shared decoding state unless it is a read-only table (never mutated, handed on or stored)
+        bad = [k for k, v in cls.attrs.items() if (isinstance(v, (PDict, PList)) or type(v).__name__ in ('SymMapM',)) and class_container_escapes(cls, k)]
         ob = 'C19/no-state-shared-between-parsers/%s' % cname
         fq = '%s:%s' % (modname, cname)
         if not bad:
